@@ -77,7 +77,11 @@ def sweep(tools, W, spec, tier, rng):
                 cls = ignored_class(spec.kind, c, calls, k)
                 if left and cls != 'ignored-spool-cleanup':
                     probs.append('spool left behind in TMPDIR: %s' % left)
-            if r.status == 0:
+            if r.status == 0 and fired and ws.isdirectory_stat(c):
+                # `isdirectory` with a path that cannot be stat'ed is false (documented meaning, expr_eval_stat): the rules go on with
+                # the condition false; the run is judged by the world model (conformance incl. final tree) and by exactly-once above
+                rec['cond_stat'] = True
+            elif r.status == 0:
                 probs += oracle.at_final_place(r.final)
                 if fired and e not in ('short', 'shorthalf') and not ws.may_retry(c['name'], e):
                     cls = ignored_class(spec.kind, c, calls, k)
@@ -141,7 +145,8 @@ def run(rep):
         'evaluations': len(results),
         'distinct_nontrivial': fired,
         'rule': '%d scenarios (move, cross-device move, flag, flags, label, add-header, discard, exec, exec stdin, exec stdin body, attachment '
-                'exec, combinations, stdin delivery with/without rewriting, cross-device, discard, reject, a stdin message of several I/O '
+                'exec, combinations, rules with command / isdirectory / file-time date conditions - evaluated through fork, waitpid, stat inside '
+                'the run -, stdin delivery with/without rewriting, cross-device, discard, reject, with conditions, a stdin message of several I/O '
                 'buffers); for each the fault-free traced run and one run per (call index, errno/short) of its I/O call sequence (read/write: '
                 'EINTR in every tier - a retried transfer must not repeat, drop or shift bytes; exit 0 after EINTR/EAGAIN is accepted only '
                 'with the message intact at its final place); every run is (a) judged by the tree oracle (each message '
@@ -154,7 +159,10 @@ def run(rep):
         'correspondence_mismatches': len(corr_bad),
         'calls_per_scenario': {r['scenario']: r['ncalls'] for r in results if r['plan'] is None and 'ncalls' in r},
     })
-    rep.assumptions += ['single faults; identity sources pinned by the shim; command/isdirectory conditions are not part of the scenarios']
+    rep.coverage['isdirectory_stat_faults_judged_by_model'] = sum(1 for r in results if r.get('cond_stat'))
+    rep.assumptions += ['single faults; identity sources pinned by the shim; a fault on the stat(2) of an `isdirectory` condition makes '
+                        'the condition false (documented meaning): those runs are judged by the world model and exactly-once, not by '
+                        'the place the fault-free run reaches']
 
 
 def replay(rep, path):
